@@ -156,20 +156,21 @@ let run (line : string) : string =
     | "reuse" ->
         let pc = build pre_toks in
         let po = canonical_order pc in
-        let prc = match start po pc fresh_app with Panicked _ -> "PANIC" | Returned (rc, _) -> sz rc in
+        let prc = match start po pc fresh_app with Panicked _ -> "PANIC" | Returned (rc, _, _) -> sz rc in
         (app_after_history [(po, pc)] fresh_app, Printf.sprintf " pre=%s/%b" prc (config_valid po pc fresh_app))
     | _ -> failwith ("drv_config: unknown context " ^ ctx) in
   let cfg = build main_toks in
   let show o =
     match start o cfg a0 with
     | Panicked _ -> "PANIC model"
-    | Returned (rc, st) ->
-        Printf.sprintf "RET %s valid=%b configured=%s started=%s%s" (sz rc) (config_valid o cfg a0) (coords (configured o cfg)) (coords st) pre in
+    | Returned (rc, st, ls) ->
+        Printf.sprintf "RET %s valid=%b configured=%s started=%s listening=%d%s" (sz rc) (config_valid o cfg a0)
+          (coords (configured o cfg)) (coords st) (List.length ls) pre in
   let a = show (canonical_order cfg) and b = show (reverse_order cfg) in
   let reqs = requirements cfg in
   let old = match start_old (canonical_order cfg) cfg a0 with
     | Panicked (PanicZap (_, _)) -> "PANIC zap" | Panicked (PanicError (_, _)) -> "PANIC error"
-    | Panicked (PanicString (_, _)) -> "PANIC string" | Returned (rc, _) -> "RET " ^ sz rc in
+    | Panicked (PanicString (_, _)) -> "PANIC string" | Returned (rc, _, _) -> "RET " ^ sz rc in
   let first = match configure_all (canonical_order cfg) cfg with
     | None -> "-" | Some p -> let (s, m) = panic_violation p in site_name s ^ "@" ^ name_of m in
   (if a = b then a else "ORDER-DEPENDENT [" ^ a ^ "] [" ^ b ^ "]")
